@@ -8,12 +8,13 @@ Variable H : string -> string.
 Variable enc : list json -> string.
 Variable parse_index : string -> option nat.
 Variable parse_usize : string -> option nat.
+Variable pos : string -> nat.
 Notation blind := (blind H enc).
 Notation dig_item := (dig_item H enc).
 Notation dig_mem := (dig_mem H enc).
 Notation wf := (wf H enc).
 Notation mk_disc := (mk_disc H enc).
-Notation disclose_here := (disclose_here H enc parse_usize).
+Notation disclose_here := (disclose_here H enc parse_usize pos).
 Notation update_at := (update_at parse_index).
 
 Definition omap {A B} (f : A -> B) (o : option A) : option B := match o with Some a => Some (f a) | None => None end.
@@ -40,7 +41,7 @@ Fixpoint add_sd (g : string) (mems : list (string * (mkind * atree))) : list (st
   | (n, (k, s)) :: r =>
       match String.compare "_sd" n with
       | Lt => ("_sd", (MSd [g], ALeaf JNull)) :: mems
-      | Eq => (n, (match k with MSd l => MSd (l ++ [g]) | _ => k end, s)) :: r
+      | Eq => (n, (match k with MSd l => MSd (insert_at (pos g) g l) | _ => k end, s)) :: r
       | Gt => (n, (k, s)) :: add_sd g r
       end
   end.
